@@ -656,3 +656,329 @@ Example C08_writer_safe_finding_last :
 ") (to_string_sd (rename_sd 100000 s)) = true /\
   to_string_sd (rename_sd 100000 s) <> rename_str 100000 (to_string_sd s).
 Proof. cbv zeta. do 3 (split; [vm_compute; reflexivity|]). vm_compute. discriminate. Qed.
+
+(* ================================================================================================== *)
+(* added from Properties/C08_add.v (2026-10-01)                                              *)
+(* ================================================================================================== *)
+(* C08 (addition): PATH SPELLING.  The data returned by a read and the bytes written by a parse do not depend on how the
+   path of the file is spelled (dot and dot-dot components, doubled and trailing slashes), as long as the spellings name the
+   same file and, textually, the same directory.  To be appended to Properties/C08.v. *)
+From Coq Require Import String.
+From Coq Require Import NArith ZArith List Bool.
+From DictIO Require Import Chars Str Value Scalar KeyPath SDict Layout Lexer TokParser Reader.
+From DictIO Require Parse.
+From DictIO Require Import SpellingProofs.
+Import ListNotations.
+Ltac c08p_conj := repeat match goal with |- _ /\ _ => split end.
+
+(* ---- (1) the path functions ----------------------------------------------------------------------------------- *)
+(* An include directive in a file spelled r names path_join (dir_of r) name, looked up under norm_path.  dir_of is textual
+   (Path.parent): it does not resolve dot-dot.  The file named depends on the directory exactly through its normal form. *)
+Theorem C08_include_target_spelling : forall d1 d2,
+  (forall n, norm_path (path_join d1 n) = norm_path (path_join d2 n)) <-> norm_path d1 = norm_path d2.
+Proof. exact norm_path_join_iff. Qed.
+Print Assumptions C08_include_target_spelling.
+
+(* same_file r1 r2 (boolean): norm_path r1 = norm_path r2 and norm_path (dir_of r1) = norm_path (dir_of r2).  The second
+   half follows from the first when the last non-empty component of both spellings is a proper name (proper_last: not
+   dot, not dot-dot, not missing); it fails for a spelling that goes on after the file name (finding below). *)
+Theorem C08_same_file_spec : forall r1 r2, same_file r1 r2 = true <->
+  norm_path r1 = norm_path r2 /\ norm_path (dir_of r1) = norm_path (dir_of r2).
+Proof. exact same_file_spec. Qed.
+Print Assumptions C08_same_file_spec.
+
+Theorem C08_same_file_proper : forall r1 r2, proper_last r1 = true -> proper_last r2 = true -> norm_path r1 = norm_path r2 ->
+  same_file r1 r2 = true /\ last (ncomps r1) [] = last (ncomps r2) [].
+Proof. exact same_file_proper. Qed.
+Print Assumptions C08_same_file_proper.
+
+Definition c08p_A : str := of_string "/r/main.dict".
+Definition c08p_B : str := of_string "/r/./main.dict".
+Definition c08p_C : str := of_string "/r/sub/../main.dict".
+Definition c08p_D : str := of_string "//r//main.dict".
+Definition c08p_E : str := of_string "/../r/main.dict/".
+
+Example C08_same_file_proper_nonvacuous :
+  proper_last c08p_A = true /\ proper_last c08p_C = true /\ norm_path c08p_A = norm_path c08p_C /\
+  same_file c08p_A c08p_C = true /\ last (ncomps c08p_A) [] = last (ncomps c08p_C) [] /\
+  dir_of c08p_C = of_string "/r/sub/.." /\ dir_of c08p_A = of_string "/r" /\
+  (forall n, norm_path (path_join (dir_of c08p_A) n) = norm_path (path_join (dir_of c08p_C) n)) /\
+  path_join (dir_of c08p_C) (of_string "x.dict") = of_string "/r/sub/../x.dict" /\
+  norm_path (path_join (dir_of c08p_C) (of_string "x.dict")) = of_string "/r/x.dict" /\
+  (* doubled slashes, a dot-dot above the root and a trailing slash are harmless as well *)
+  same_file c08p_A c08p_B = true /\ same_file c08p_A c08p_D = true /\ same_file c08p_A c08p_E = true.
+Proof.
+  assert (H1 : proper_last c08p_A = true) by (vm_compute; reflexivity).
+  assert (H2 : proper_last c08p_C = true) by (vm_compute; reflexivity).
+  assert (H3 : norm_path c08p_A = norm_path c08p_C) by (vm_compute; reflexivity).
+  destruct (C08_same_file_proper _ _ H1 H2 H3) as [H4 H5].
+  refine (conj H1 (conj H2 (conj H3 (conj H4 (conj H5 _))))).
+  split; [vm_compute; reflexivity|]. split; [vm_compute; reflexivity|].
+  split; [apply C08_include_target_spelling; apply C08_same_file_spec in H4; exact (proj2 H4)|].
+  c08p_conj; vm_compute; reflexivity.
+Qed.
+
+(* finding: a spelling that continues after the file name (a trailing dot component, or a component followed by dot-dot)
+   normalises to the same file but has another textual directory: includes are looked up below the FILE.
+   (pathlib drops a trailing dot component, so the first spelling is harmless in the library; the second is not openable.) *)
+Example C08_spelling_dir_finding :
+  let r1 := of_string "/r/main.dict" in let r2 := of_string "/r/main.dict/." in let r3 := of_string "/r/main.dict/x/.." in
+  norm_path r1 = norm_path r2 /\ norm_path r1 = norm_path r3 /\ same_file r1 r2 = false /\ same_file r1 r3 = false /\
+  proper_last r2 = false /\ proper_last r3 = false /\
+  norm_path (path_join (dir_of r1) (of_string "x.dict")) = of_string "/r/x.dict" /\
+  norm_path (path_join (dir_of r2) (of_string "x.dict")) = of_string "/r/main.dict/x.dict" /\
+  norm_path (path_join (dir_of r3) (of_string "x.dict")) = of_string "/r/main.dict/x/x.dict".
+Proof. cbv zeta. c08p_conj; vm_compute; reflexivity. Qed.
+
+(* ---- (2) DictReader.read ------------------------------------------------------------------------------------------ *)
+(* the example: main.dict includes sub/a.dict, which includes ../b.dict *)
+Definition c08p_fs : fsys :=
+  [(of_string "/r/main.dict", FNative (of_string "#include 'sub/a.dict'
+m 1;
+"));
+   (of_string "/r/sub/a.dict", FNative (of_string "#include '../b.dict'
+a 2;
+"));
+   (of_string "/r/b.dict", FNative (of_string "b 3; // comment
+"))].
+
+(* includes off: only the root file is read; nothing but norm_path r1 = norm_path r2 is needed.  The results agree in
+   everything except the third component of the include entries, which is the name joined to the directory as spelled
+   (read_rel (ER_dir d1 d2): data, comment tables, expression table, counter equal; include tables entry by entry:
+   same id, same directive, same name, path_i = path_join d_i name).  One read raises iff the other does, same error. *)
+Theorem C08_read_spelling_includes_off : forall fs r1 r2 com c, norm_path r1 = norm_path r2 ->
+  read_rel (ER_dir (dir_of r1) (dir_of r2)) (read_plain fs r1 false com c) (read_plain fs r2 false com c).
+Proof. exact read_plain_off_rel. Qed.
+Print Assumptions C08_read_spelling_includes_off.
+
+(* includes on.  Side condition read_names_ok fs r1 com c (boolean, on the first read; it walks the include recursion
+   exactly as merge_includes_rec does, with the same counters): every file that is parsed has only include names that
+   are non-empty and relative.  Forced by the two findings below.  ER_on r1 r2: same directive, same name, the stored
+   paths normalise to the same path, and they are dir_of r1 ++ s and dir_of r2 ++ s for one and the same text s: they
+   differ in the spelling of the root's directory only. *)
+Theorem C08_read_spelling_includes_on : forall fs r1 r2 com c, same_file r1 r2 = true -> read_names_ok fs r1 com c = true ->
+  read_rel (ER_on r1 r2) (read_plain fs r1 true com c) (read_plain fs r2 true com c).
+Proof. exact read_spelling_on. Qed.
+Print Assumptions C08_read_spelling_includes_on.
+
+(* both, in plain words (same_result): same data, same line comment / block comment / expression tables, same counter;
+   include tables entry by entry: same id, directive, name, and the stored paths equal after norm_path *)
+Theorem C08_read_spelling_independent : forall fs r1 r2 inc com c, same_file r1 r2 = true ->
+  (inc = true -> read_names_ok fs r1 com c = true) ->
+  same_result (read_plain fs r1 inc com c) (read_plain fs r2 inc com c).
+Proof. exact read_spelling_independent. Qed.
+Print Assumptions C08_read_spelling_independent.
+
+Definition c08p_view (r : res (sdict * Z)) : list key * list (N * str) * list str * Z :=
+  match r with
+  | Ok (s, c) => (map fst (sd_data s), map (fun e => (fst e, inc_name e)) (sd_inc s), map inc_path (sd_inc s), c)
+  | Raise _ => ([], [], [], 0%Z)
+  end.
+
+Example C08_read_spelling_independent_nonvacuous :
+  same_file c08p_A c08p_B = true /\ same_file c08p_A c08p_C = true /\ read_names_ok c08p_fs c08p_A true (-1) = true /\
+  same_result (read_plain c08p_fs c08p_A true true (-1)) (read_plain c08p_fs c08p_B true true (-1)) /\
+  same_result (read_plain c08p_fs c08p_A true true (-1)) (read_plain c08p_fs c08p_C true true (-1)) /\
+  same_result (read_plain c08p_fs c08p_A false true (-1)) (read_plain c08p_fs c08p_C false true (-1)) /\
+  read_rel (ER_on c08p_A c08p_C) (read_plain c08p_fs c08p_A true true (-1)) (read_plain c08p_fs c08p_C true true (-1)) /\
+  (* all three files are merged, whatever the spelling; the stored paths differ literally *)
+  c08p_view (read_plain c08p_fs c08p_A true true (-1)) =
+    ([KS (of_string "INCLUDE000000"); KS (of_string "m"); KS (of_string "INCLUDE000001"); KS (of_string "a"); KS (of_string "b");
+      KS (of_string "LINECOMMENT000002")],
+     [(0%N, of_string "sub/a.dict"); (1%N, of_string "../b.dict")],
+     [of_string "/r/sub/a.dict"; of_string "/r/sub/../b.dict"], 2%Z) /\
+  c08p_view (read_plain c08p_fs c08p_B true true (-1)) =
+    (fst (fst (fst (c08p_view (read_plain c08p_fs c08p_A true true (-1))))),
+     [(0%N, of_string "sub/a.dict"); (1%N, of_string "../b.dict")],
+     [of_string "/r/./sub/a.dict"; of_string "/r/./sub/../b.dict"], 2%Z) /\
+  c08p_view (read_plain c08p_fs c08p_C true true (-1)) =
+    (fst (fst (fst (c08p_view (read_plain c08p_fs c08p_A true true (-1))))),
+     [(0%N, of_string "sub/a.dict"); (1%N, of_string "../b.dict")],
+     [of_string "/r/sub/../sub/a.dict"; of_string "/r/sub/../sub/../b.dict"], 2%Z) /\
+  match read_plain c08p_fs c08p_A true true (-1), read_plain c08p_fs c08p_C true true (-1) with
+  | Ok (s1, _), Ok (s2, _) => sd_data s1 = sd_data s2 /\ sd_lc s1 = sd_lc s2 /\ sd_inc s1 <> sd_inc s2
+  | _, _ => False
+  end.
+Proof.
+  assert (H1 : same_file c08p_A c08p_B = true) by (vm_compute; reflexivity).
+  assert (H2 : same_file c08p_A c08p_C = true) by (vm_compute; reflexivity).
+  assert (H3 : read_names_ok c08p_fs c08p_A true (-1) = true) by (vm_compute; reflexivity).
+  refine (conj H1 (conj H2 (conj H3 (conj (C08_read_spelling_independent _ _ _ true true _ H1 (fun _ => H3))
+         (conj (C08_read_spelling_independent _ _ _ true true _ H2 (fun _ => H3))
+         (conj (C08_read_spelling_independent _ _ _ false true (-1)%Z H2 _)
+         (conj (C08_read_spelling_includes_on _ _ _ true _ H2 H3) _))))))); [intros H; discriminate H|].
+  split; [vm_compute; reflexivity|]. split; [vm_compute; reflexivity|]. split; [vm_compute; reflexivity|].
+  vm_compute. split; [reflexivity|]. split; [reflexivity|]. discriminate.
+Qed.
+
+(* finding (also of the library, dictIO 0.4.1: DictReader.read of main.dict spelled .../r/main.dict and .../r/sub/../main.dict
+   returns the keys INCLUDE000000 INCLUDE000001 m x o and INCLUDE000000 INCLUDE000001 m x INCLUDE000002 o): an ABSOLUTE
+   include name.  main.dict includes x.dict and (by its absolute path) other.dict, which includes x.dict as well.
+   SDict._clean drops an include entry that equals an earlier one, paths compared as spelled: read as /r/main.dict both
+   x.dict entries carry /r/x.dict and the second one is dropped; read as /r/sub/../main.dict the first carries
+   /r/sub/../x.dict, the second (anchored at the absolute /r/other.dict) /r/x.dict: both stay.  The DATA differ. *)
+Example C08_spelling_absolute_include_finding :
+  let fs := [(of_string "/r/main.dict", FNative (of_string "#include 'x.dict'
+#include '/r/other.dict'
+m 1;
+")); (of_string "/r/other.dict", FNative (of_string "#include 'x.dict'
+o 2;
+")); (of_string "/r/x.dict", FNative (of_string "x 3;
+"))] in
+  same_file c08p_A c08p_C = true /\ read_names_ok fs c08p_A true (-1) = false /\
+  fst (fst (fst (c08p_view (read_plain fs c08p_A true true (-1))))) =
+    [KS (of_string "INCLUDE000000"); KS (of_string "INCLUDE000001"); KS (of_string "m"); KS (of_string "x"); KS (of_string "o")] /\
+  fst (fst (fst (c08p_view (read_plain fs c08p_C true true (-1))))) =
+    [KS (of_string "INCLUDE000000"); KS (of_string "INCLUDE000001"); KS (of_string "m"); KS (of_string "x");
+     KS (of_string "INCLUDE000002"); KS (of_string "o")] /\
+  snd (fst (c08p_view (read_plain fs c08p_C true true (-1)))) = [of_string "/r/sub/../x.dict"; of_string "/r/other.dict"; of_string "/r/x.dict"] /\
+  (* model only: the model keeps a dot component in the directory, pathlib drops it; the library returns the first key list
+     for .../r/./main.dict *)
+  fst (fst (fst (c08p_view (read_plain fs c08p_B true true (-1))))) = fst (fst (fst (c08p_view (read_plain fs c08p_C true true (-1))))).
+Proof. cbv zeta. c08p_conj; vm_compute; reflexivity. Qed.
+
+(* finding (model only: the model's file system has no directories, a path can be a file and a directory of files): an
+   EMPTY include name is joined to the directory itself; if a file is stored under that path, its own includes are anchored
+   at the textual parent of the directory as spelled *)
+Example C08_spelling_empty_include_finding :
+  let fs := [(of_string "/r/main.dict", FNative (of_string "#include ''
+m 1;
+")); (of_string "/r", FNative (of_string "#include 'x.dict'
+o 2;
+")); (of_string "/x.dict", FNative (of_string "x 3;
+"))] in
+  same_file c08p_A c08p_C = true /\ read_names_ok fs c08p_A true (-1) = false /\
+  fst (fst (fst (c08p_view (read_plain fs c08p_A true true (-1))))) =
+    [KS (of_string "INCLUDE000000"); KS (of_string "m"); KS (of_string "INCLUDE000001"); KS (of_string "o"); KS (of_string "x")] /\
+  fst (fst (fst (c08p_view (read_plain fs c08p_C true true (-1))))) =
+    [KS (of_string "INCLUDE000000"); KS (of_string "m"); KS (of_string "INCLUDE000001"); KS (of_string "o")] /\
+  snd (fst (c08p_view (read_plain fs c08p_A true true (-1)))) = [of_string "/r"; of_string "/x.dict"] /\
+  snd (fst (c08p_view (read_plain fs c08p_C true true (-1)))) = [of_string "/r/sub/.."; of_string "/r/sub/x.dict"].
+Proof. cbv zeta. c08p_conj; vm_compute; reflexivity. Qed.
+
+(* ---- (3) DictReader.read with all options, DictParser.parse ------------------------------------------------------ *)
+(* same_opt_result: both reads are outside the modelled fragment (None), or same_result *)
+Theorem C08_read_opts_spelling_independent : forall fs r1 r2 inc order com scope c, same_file r1 r2 = true ->
+  (inc = true -> read_names_ok fs r1 com c = true) ->
+  same_opt_result (Parse.read_opts fs r1 inc order com scope c) (Parse.read_opts fs r2 inc order com scope c).
+Proof. exact read_opts_spelling. Qed.
+Print Assumptions C08_read_opts_spelling_independent.
+
+Example C08_read_opts_spelling_independent_nonvacuous :
+  same_file c08p_A c08p_C = true /\ read_names_ok c08p_fs c08p_A true (-1) = true /\
+  same_opt_result (Parse.read_opts c08p_fs c08p_A true true true [] (-1)) (Parse.read_opts c08p_fs c08p_C true true true [] (-1)) /\
+  same_opt_result (Parse.read_opts c08p_fs c08p_A false false false [] (-1)) (Parse.read_opts c08p_fs c08p_C false false false [] (-1)) /\
+  option_map c08p_view (Parse.read_opts c08p_fs c08p_C true true true [] (-1)) =
+    Some ([KS (of_string "INCLUDE000000"); KS (of_string "INCLUDE000001"); KS (of_string "LINECOMMENT000002"); KS (of_string "a");
+           KS (of_string "b"); KS (of_string "m")],
+          [(0%N, of_string "sub/a.dict"); (1%N, of_string "../b.dict")],
+          [of_string "/r/sub/../sub/a.dict"; of_string "/r/sub/../sub/../b.dict"], 2%Z).
+Proof.
+  assert (H2 : same_file c08p_A c08p_C = true) by (vm_compute; reflexivity).
+  assert (H3 : read_names_ok c08p_fs c08p_A true (-1) = true) by (vm_compute; reflexivity).
+  refine (conj H2 (conj H3 (conj (C08_read_opts_spelling_independent _ _ _ true true true [] _ H2 (fun _ => H3))
+         (conj (C08_read_opts_spelling_independent _ _ _ false false false [] (-1)%Z H2 _) _)))); [intros H; discriminate H|].
+  vm_compute. reflexivity.
+Qed.
+
+(* DictParser.parse, all options (native / Foam output; json / xml are outside the model on both sides).  pm_same: both runs
+   are outside the model, or raise the same error, or write the SAME TEXT, end with the same counter, and name targets that
+   normalise to the same path (the target is dir_of src + name: it carries the spelling of the source's directory).
+   Side conditions: same_file; the two spellings have the same base name (a trailing slash gives the empty base name in the
+   model: finding below); includes on: read_names_ok as above; append mode (pm_append_side, boolean, on the first run): when
+   the target exists already, the read of the target meets non-empty relative include names only, and so does the include
+   table of the source if it was read with includes off (the tables of source and target are merged). *)
+Theorem C08_parse_spelling_independent : forall fs r1 r2 inc append order com scope output c,
+  same_file r1 r2 = true -> base_name r1 = base_name r2 ->
+  (inc = true -> read_names_ok fs r1 com c = true) ->
+  (append = true -> pm_append_side fs r1 inc order com scope output c = true) ->
+  pm_same (Parse.parse_model fs r1 inc append order com scope output c) (Parse.parse_model fs r2 inc append order com scope output c).
+Proof. exact parse_model_spelling. Qed.
+Print Assumptions C08_parse_spelling_independent.
+
+(* the example with the parsed file present already (it has an include of its own): mode a merges into it *)
+Definition c08p_fs2 : fsys := c08p_fs ++ [(of_string "/r/parsed.main.dict", FNative (of_string "old 7;
+#include 'b.dict'
+"))].
+Definition c08p_pm (o : option (res (str * str * Z))) : str * nat * Z :=
+  match o with Some (Ok (t, x, c)) => (t, List.length x, c) | _ => ([], O, 0%Z) end.
+
+Example C08_parse_spelling_independent_nonvacuous :
+  same_file c08p_A c08p_C = true /\ base_name c08p_A = base_name c08p_C /\ read_names_ok c08p_fs2 c08p_A true (-1) = true /\
+  pm_append_side c08p_fs2 c08p_A true false true [] None (-1) = true /\
+  pm_append_side c08p_fs2 c08p_A false true true [] (Some (of_string "foam")) (-1) = true /\
+  (* mode w *)
+  pm_same (Parse.parse_model c08p_fs2 c08p_A true false false true [] None (-1)) (Parse.parse_model c08p_fs2 c08p_C true false false true [] None (-1)) /\
+  (* mode a, onto the existing parsed.main.dict *)
+  pm_same (Parse.parse_model c08p_fs2 c08p_A true true false true [] None (-1)) (Parse.parse_model c08p_fs2 c08p_C true true false true [] None (-1)) /\
+  (* includes off, order on, Foam output, mode a *)
+  pm_same (Parse.parse_model c08p_fs2 c08p_A false true true true [] (Some (of_string "foam")) (-1))
+          (Parse.parse_model c08p_fs2 c08p_C false true true true [] (Some (of_string "foam")) (-1)) /\
+  c08p_pm (Parse.parse_model c08p_fs2 c08p_A true true false true [] None (-1)) = (of_string "/r/parsed.main.dict", 434%nat, 4%Z) /\
+  c08p_pm (Parse.parse_model c08p_fs2 c08p_C true true false true [] None (-1)) = (of_string "/r/sub/../parsed.main.dict", 434%nat, 4%Z) /\
+  c08p_pm (Parse.parse_model c08p_fs2 c08p_C true false false true [] None (-1)) = (of_string "/r/sub/../parsed.main.dict", 385%nat, 2%Z) /\
+  match Parse.parse_model c08p_fs2 c08p_A true true false true [] None (-1), Parse.parse_model c08p_fs2 c08p_C true true false true [] None (-1) with
+  | Some (Ok (_, x1, _)), Some (Ok (_, x2, _)) => x1 = x2 /\ contains (of_string "old ") x1 = true /\ contains (of_string "// comment") x1 = true
+  | _, _ => False
+  end.
+Proof.
+  assert (H1 : same_file c08p_A c08p_C = true) by (vm_compute; reflexivity).
+  assert (H2 : base_name c08p_A = base_name c08p_C) by (vm_compute; reflexivity).
+  assert (H3 : read_names_ok c08p_fs2 c08p_A true (-1) = true) by (vm_compute; reflexivity).
+  assert (H4 : pm_append_side c08p_fs2 c08p_A true false true [] None (-1) = true) by (vm_compute; reflexivity).
+  assert (H5 : pm_append_side c08p_fs2 c08p_A false true true [] (Some (of_string "foam")) (-1) = true) by (vm_compute; reflexivity).
+  refine (conj H1 (conj H2 (conj H3 (conj H4 (conj H5
+         (conj (C08_parse_spelling_independent _ _ _ true false false true [] None _ H1 H2 (fun _ => H3) _)
+         (conj (C08_parse_spelling_independent _ _ _ true true false true [] None _ H1 H2 (fun _ => H3) (fun _ => H4))
+         (conj (C08_parse_spelling_independent _ _ _ false true true true [] (Some (of_string "foam")) (-1)%Z H1 H2 _ (fun _ => H5)) _))))))));
+    try (intros H; discriminate H).
+  split; [vm_compute; reflexivity|]. split; [vm_compute; reflexivity|]. split; [vm_compute; reflexivity|].
+  vm_compute. c08p_conj; reflexivity.
+Qed.
+
+(* finding (model only: pathlib's Path.name ignores a trailing slash): base_name of a spelling with a trailing slash is
+   empty, the derived target name is "parsed." and the text written differs *)
+Example C08_spelling_base_name_finding :
+  let r2 := of_string "/r/main.dict/" in
+  same_file c08p_A r2 = true /\ base_name c08p_A = of_string "main.dict" /\ base_name r2 = [] /\
+  c08p_pm (Parse.parse_model c08p_fs2 c08p_A true false false true [] None (-1)) = (of_string "/r/parsed.main.dict", 385%nat, 2%Z) /\
+  c08p_pm (Parse.parse_model c08p_fs2 r2 true false false true [] None (-1)) = (of_string "/r/parsed.", 385%nat, 2%Z) /\
+  c08p_pm (Parse.parse_model c08p_fs2 c08p_A true true false true [] None (-1)) = (of_string "/r/parsed.main.dict", 434%nat, 4%Z) /\
+  c08p_pm (Parse.parse_model c08p_fs2 r2 true true false true [] None (-1)) = (of_string "/r/parsed.", 385%nat, 2%Z).
+Proof. cbv zeta. c08p_conj; vm_compute; reflexivity. Qed.
+
+(* DictWriter.write of a plain dict (write_text; mode a reads the existing text of the target, includes on): the text
+   written does not depend on the spelling of the target *)
+Theorem C08_write_text_spelling_independent : forall foam p1 p2 existing append d, same_file p1 p2 = true ->
+  (forall text, existing = Some text -> append = true -> read_names_ok [(norm_path p1, FNative text)] p1 true (-1) = true) ->
+  write_text foam p1 existing append d = write_text foam p2 existing append d.
+Proof. exact write_text_spelling. Qed.
+Print Assumptions C08_write_text_spelling_independent.
+
+Definition c08p_P1 : str := of_string "/r/parsed.main.dict".
+Definition c08p_P2 : str := of_string "/r/sub/../parsed.main.dict".
+Definition c08p_old : str := of_string "old 7; // kept
+#include 'b.dict'
+".
+Definition c08p_d : list (key * tree) := [(KS (of_string "n"), Leaf (SInt 5))].
+
+Example C08_write_text_spelling_independent_nonvacuous :
+  same_file c08p_P1 c08p_P2 = true /\ read_names_ok [(norm_path c08p_P1, FNative c08p_old)] c08p_P1 true (-1) = true /\
+  write_text false c08p_P1 (Some c08p_old) true c08p_d = write_text false c08p_P2 (Some c08p_old) true c08p_d /\
+  write_text true c08p_P1 (Some c08p_old) true c08p_d = write_text true c08p_P2 (Some c08p_old) true c08p_d /\
+  match write_text false c08p_P2 (Some c08p_old) true c08p_d with
+  | Ok x => List.length x = 322%nat /\ contains (of_string "// kept") x = true /\ contains (of_string "#include b.dict") x = true /\
+            contains (of_string "n ") x = true
+  | Raise _ => False
+  end.
+Proof.
+  assert (H1 : same_file c08p_P1 c08p_P2 = true) by (vm_compute; reflexivity).
+  assert (H0 : read_names_ok [(norm_path c08p_P1, FNative c08p_old)] c08p_P1 true (-1) = true) by (vm_compute; reflexivity).
+  assert (H2 : forall text, Some c08p_old = Some text -> true = true ->
+            read_names_ok [(norm_path c08p_P1, FNative text)] c08p_P1 true (-1) = true)
+    by (intros text E _; injection E as <-; exact H0).
+  split; [exact H1|]. split; [exact H0|].
+  split; [exact (C08_write_text_spelling_independent false c08p_P1 c08p_P2 (Some c08p_old) true c08p_d H1 H2)|].
+  split; [exact (C08_write_text_spelling_independent true c08p_P1 c08p_P2 (Some c08p_old) true c08p_d H1 H2)|].
+  vm_compute. c08p_conj; reflexivity.
+Qed.
